@@ -1,3 +1,768 @@
-/- C04: property theorems (none yet). -/
+/-
+C04 — Linked modules share state exactly as the specification says.
+Property theorems about the store model `Wz.Model.Store` (tied to /repo by correspondence, tie B).
+-/
+import Wz.Model.Store
+
 namespace Wz.C04
+open Wz.Model.Store
+
+/-! ## 1. An accepted import is compatible (spec: external-type matching) -/
+
+/-- The specification's limits matching: an import declaring `{min n, max m?}` matches an object of
+current size `cur` and maximum `amax?` iff `n ≤ cur` and (`m` absent, or `amax` present and `≤ m`). -/
+def LimitsMatch (cur : Nat) (amax : Option Nat) (n : Nat) (m : Option Nat) : Prop :=
+  n ≤ cur ∧ (m = none ∨ ∃ a b, amax = some a ∧ m = some b ∧ a ≤ b)
+
+theorem func_match_sound (e a : FT) (h : matchFunc e a = true) : a = e := by
+  simpa [matchFunc] using h
+
+theorem global_match_sound (e : GT) (g : GlobalInst) (h : matchGlobal e g = true) : e = g.ty := by
+  unfold matchGlobal at h
+  simp only [Bool.and_eq_true, beq_iff_eq] at h
+  cases e; cases hg : g.ty; simp_all
+
+/-- Tables: the code compares with the DECLARED minimum; sound because a table never shrinks
+(`t.min ≤ t.refs.length` is an invariant, see `tableGrow_inv`). -/
+theorem table_match_sound (e : TT) (t : TableInst) (hinv : t.min ≤ t.refs.length)
+    (h : matchTable e t = true) : e.rt = t.rt ∧ LimitsMatch t.refs.length t.max e.min e.max := by
+  unfold matchTable at h
+  simp only [Bool.and_eq_true, beq_iff_eq, Bool.not_eq_true', decide_eq_false_iff_not] at h
+  obtain ⟨⟨h1, h2⟩, h3⟩ := h
+  refine ⟨h1, by omega, ?_⟩
+  cases hem : e.max with
+  | none => exact Or.inl rfl
+  | some em =>
+    right
+    rw [hem] at h3
+    cases htm : t.max with
+    | none => rw [htm] at h3; simp at h3
+    | some am =>
+      rw [htm] at h3
+      simp only [Bool.not_eq_true', decide_eq_false_iff_not] at h3
+      exact ⟨am, em, rfl, rfl, by omega⟩
+
+/-- Memories: the importer's limits as the decoder leaves them (`decodeMT`: a missing maximum becomes
+the configured limit, a declared one is clamped); the exporter's maximum is its EFFECTIVE maximum
+(`m.max ≤ limit`, what the instance can actually reach). -/
+theorem mem_match_sound (limit n : Nat) (declared : Option Nat) (m : MemInst)
+    (h : matchMem (decodeMT limit n declared) m = true) :
+    LimitsMatch m.pages (some m.max) n declared := by
+  cases declared with
+  | none =>
+    unfold matchMem decodeMT at h
+    simp only [Bool.and_eq_true, Bool.not_eq_true', decide_eq_false_iff_not] at h
+    exact ⟨by omega, Or.inl rfl⟩
+  | some d =>
+    unfold matchMem decodeMT at h
+    simp only [Bool.and_eq_true, Bool.not_eq_true', decide_eq_false_iff_not] at h
+    obtain ⟨h1, h2⟩ := h
+    have h3 : Nat.min d limit ≤ d := Nat.min_le_left d limit
+    exact ⟨by omega, Or.inr ⟨m.max, d, rfl, rfl, Nat.le_trans (Nat.le_of_not_lt h2) h3⟩⟩
+
+/-- what it means for a resolved address to be a spec-compatible provider of an import -/
+def SpecMatch (s : Store) (imp : Import) : Extern → Prop
+  | .func a => ∃ (f : FuncInst), s.funcs[a]? = some f ∧ imp.desc = .func f.ft
+  | .table a => ∃ (t : TableInst) (tt : TT), s.tables[a]? = some t ∧ imp.desc = .table tt ∧ tt.rt = t.rt ∧
+      LimitsMatch t.refs.length t.max tt.min tt.max
+  | .mem a => ∃ (m : MemInst) (mt : MT), s.mems[a]? = some m ∧ imp.desc = .mem mt ∧ mt.min ≤ m.pages ∧ m.max ≤ mt.max
+  | .global a => ∃ (g : GlobalInst), s.globals[a]? = some g ∧ imp.desc = .global g.ty
+
+@[reducible] def TablesInv (s : Store) : Prop := ∀ (a : Nat) (t : TableInst), s.tables[a]? = some t → t.min ≤ t.refs.length
+
+/-- pointwise relation between the import list and the resolved addresses -/
+def AllMatch (s : Store) : List Import → List Extern → Prop
+  | [], [] => True
+  | i :: is, e :: es => SpecMatch s i e ∧ AllMatch s is es
+  | _, _ => False
+
+theorem resolveOne_sound (s : Store) (hinv : TablesInv s) (imp : Import) (ext : Extern)
+    (h : resolveOne s imp = some ext) : SpecMatch s imp ext := by
+  unfold resolveOne at h
+  split at h
+  · contradiction
+  · split at h
+    · contradiction
+    · split at h
+      · -- func
+        rename_i ft hd
+        split at h
+        · split at h
+          · rename_i a _ f hf
+            split at h
+            · rename_i hm
+              cases h
+              have := func_match_sound _ _ hm
+              exact ⟨f, hf, by rw [hd, this]⟩
+            · contradiction
+          · contradiction
+        · contradiction
+      · -- table
+        rename_i tt hd
+        split at h
+        · split at h
+          · rename_i a _ t ht
+            split at h
+            · rename_i hm
+              cases h
+              have := table_match_sound _ _ (hinv _ _ ht) hm
+              exact ⟨t, tt, ht, hd, this.1, this.2⟩
+            · contradiction
+          · contradiction
+        · contradiction
+      · -- mem
+        rename_i mt hd
+        split at h
+        · split at h
+          · rename_i a _ m hm'
+            split at h
+            · rename_i hm
+              cases h
+              unfold matchMem at hm
+              simp only [Bool.and_eq_true, Bool.not_eq_true', decide_eq_false_iff_not] at hm
+              exact ⟨m, mt, hm', hd, by omega, by omega⟩
+            · contradiction
+          · contradiction
+        · contradiction
+      · -- global
+        rename_i gt hd
+        split at h
+        · split at h
+          · rename_i a _ g hg
+            split at h
+            · rename_i hm
+              cases h
+              have := global_match_sound _ _ hm
+              exact ⟨g, hg, by rw [hd, this]⟩
+            · contradiction
+          · contradiction
+        · contradiction
+
+theorem resolveAll_sound (s : Store) (hinv : TablesInv s) :
+    ∀ (imps : List Import) (exts : List Extern), resolveAll s imps = some exts →
+      AllMatch s imps exts := by
+  intro imps
+  induction imps with
+  | nil => intro exts h; simp [resolveAll] at h; subst h; trivial
+  | cons imp rest ih =>
+    intro exts h
+    unfold resolveAll at h
+    split at h
+    · contradiction
+    · rename_i e he
+      split at h
+      · contradiction
+      · rename_i es hes
+        cases h
+        exact ⟨resolveOne_sound s hinv imp e he, ih es hes⟩
+
+/-- **import_match_sound** — whenever instantiation gets past import resolution (any outcome other
+than `invalid`/`importErr`), EVERY import was resolved to an object that is compatible by the
+specification's external-type matching: equal function types, limits matching against the
+table's current size / the memory's current size and effective maximum, equal global type
+(mutability and value type). -/
+theorem import_match_sound (s : Store) (hinv : TablesInv s) (name : String) (d : ModDesc)
+    (h : (instantiate s name d).2 ≠ .invalid ∧ (instantiate s name d).2 ≠ .importErr) :
+    ∃ exts, resolveAll s d.imports = some exts ∧ AllMatch s d.imports exts := by
+  unfold instantiate at h
+  split at h
+  · exact absurd rfl h.1
+  · split at h
+    · exact absurd rfl h.2
+    · rename_i exts hexts
+      exact ⟨exts, hexts, resolveAll_sound s hinv _ _ hexts⟩
+
+/-- sample (test): the hypothesis is met by a concrete store with a grown table -/
+example : TablesInv { tables := [{ refs := [0, 0, 0], min := 1, max := some 5, rt := .funcref }] } := by
+  intro a t h
+  match a with
+  | 0 => simp at h; subst h; decide
+  | n + 1 => simp at h
+
+/-- the table invariant is kept by growth (tables never shrink) -/
+theorem tableGrow_inv (t : TableInst) (delta : Nat) (h : t.min ≤ t.refs.length) :
+    (tableGrow t delta).1.min ≤ (tableGrow t delta).1.refs.length := by
+  unfold tableGrow
+  dsimp only
+  repeat' split
+  all_goals first
+    | exact h
+    | (simp only [List.length_append, List.length_replicate]; omega)
+
+/-- Deviation (recorded, not a violation; the property states only "accepted ONLY IF compatible"): the
+converse fails for grown tables — a spec-compatible import is rejected because the code compares
+with the declared minimum. Witness: `(table 1 funcref)` grown to 10, import with min 5. -/
+theorem import_match_incomplete_witness :
+    let t : TableInst := { refs := List.replicate 10 0, min := 1, max := none, rt := .funcref }
+    let e : TT := { rt := .funcref, min := 5, max := none }
+    LimitsMatch t.refs.length t.max e.min e.max ∧ matchTable e t = false := by
+  refine ⟨⟨by decide, Or.inl rfl⟩, by decide⟩
+
+/-- **import_match_complete_partial** — for tables that were never grown (size = declared minimum) the
+check is also complete. Missing for the full converse: grown tables (see the witness above). -/
+theorem import_match_complete_partial (e : TT) (t : TableInst) (hsz : t.refs.length = t.min)
+    (hrt : e.rt = t.rt) (h : LimitsMatch t.refs.length t.max e.min e.max) : matchTable e t = true := by
+  unfold matchTable
+  obtain ⟨h1, h2⟩ := h
+  simp only [Bool.and_eq_true, beq_iff_eq, Bool.not_eq_true', decide_eq_false_iff_not]
+  refine ⟨⟨hrt, by omega⟩, ?_⟩
+  rcases h2 with h2 | ⟨a, b, ha, hb, hab⟩
+  · rw [h2]
+  · rw [hb, ha]; simp only [Bool.not_eq_true', decide_eq_false_iff_not]; omega
+
+/-! ## 2. One shared cell per global, on both storage schemes -/
+
+/-- the store is well-formed for globals: every global address has its module-context slot -/
+def LiveWF (s : Store) : Prop := s.live.length = s.globals.length
+
+/-- **the cell law**: after `SetValue`/`global.set` of address `a`, a read of any address `b` — through
+`Value()`, generated code, any instance — gives the written value if `b = a` and the old value
+otherwise; for BOTH schemes (`me = true`: owner's module context; `me = false`: the `.Val` field). -/
+theorem gvalue_gset (s : Store) (hwf : LiveWF s) (a v b : Nat) (ha : a < s.globals.length) :
+    gvalue (gset s a v) b = if b = a then v else gvalue s b := by
+  unfold LiveWF at hwf
+  unfold gset
+  have hga : s.globals[a]? = some s.globals[a] := List.getElem?_eq_getElem ha
+  rw [hga]
+  by_cases hme : s.globals[a].me = true
+  · simp only [hme, if_true]
+    unfold gvalue
+    simp only []
+    by_cases hba : b = a
+    · subst hba
+      simp only [hga, hme, if_true]
+      rw [List.getD_eq_getElem?_getD, List.getElem?_set]
+      simp [hwf, ha]
+    · simp only [hba, if_false]
+      cases hgb : s.globals[b]? with
+      | none => rfl
+      | some g =>
+        simp only []
+        rw [List.getD_eq_getElem?_getD, List.getElem?_set, List.getD_eq_getElem?_getD]
+        have : ¬ a = b := fun h => hba h.symm
+        simp [this]
+  · have hme' : s.globals[a].me = false := by simpa using hme
+    simp only [hme', Bool.false_eq_true, if_false]
+    unfold gvalue
+    dsimp only
+    rw [List.getElem?_set]
+    by_cases hba : b = a
+    · subst hba
+      simp [ha, hme']
+    · have : ¬ a = b := fun h => hba h.symm
+      simp only [this, if_false, hba]
+
+theorem gset_wf (s : Store) (hwf : LiveWF s) (a v : Nat) : LiveWF (gset s a v) := by
+  unfold LiveWF at *
+  unfold gset
+  split
+  · split <;> simp [hwf]
+  · exact hwf
+
+theorem gset_insts (s : Store) (a v : Nat) : (gset s a v).insts = s.insts := by
+  unfold gset; split
+  · split <;> rfl
+  · rfl
+
+theorem gset_len (s : Store) (a v : Nat) : (gset s a v).globals.length = s.globals.length := by
+  unfold gset; split
+  · split <;> simp
+  · rfl
+
+/-- operations on globals: through an instance (guest code of instance `i`, global index `k`) or through
+the host API (`api.Global` of global address `a`) -/
+inductive GOp where
+  | guestGet (i k : Nat)
+  | guestSet (i k v : Nat)
+  | apiGet (a : Nat)
+  | apiSet (a v : Nat)
+
+/-- implementation: both schemes, through the instance's address table -/
+def gstep (s : Store) : GOp → Store × Option Nat
+  | .guestGet i k => (s, (instGaddr s i k).map (gvalue s))
+  | .guestSet i k v => match instGaddr s i k with
+    | some a => (gset s a v, none)
+    | none => (s, none)
+  | .apiGet a => (s, some (gvalue s a))
+  | .apiSet a v => (gset s a v, none)
+
+def grun (s : Store) : List GOp → List (Option Nat)
+  | [] => []
+  | op :: rest => (gstep s op).2 :: grun (gstep s op).1 rest
+
+/-- specification: ONE cell per global address (`cells[a]`), nothing else -/
+def cstep (addr : Nat → Nat → Option Nat) (c : List Nat) : GOp → List Nat × Option Nat
+  | .guestGet i k => (c, (addr i k).map (c.getD · 0))
+  | .guestSet i k v => match addr i k with
+    | some a => (c.set a v, none)
+    | none => (c, none)
+  | .apiGet a => (c, some (c.getD a 0))
+  | .apiSet a v => (c.set a v, none)
+
+def crun (addr : Nat → Nat → Option Nat) (c : List Nat) : List GOp → List (Option Nat)
+  | [] => []
+  | op :: rest => (cstep addr c op).2 :: crun addr (cstep addr c op).1 rest
+
+/-- abstraction: the current value of every global address -/
+def cells (s : Store) : List Nat := (List.range s.globals.length).map (gvalue s)
+
+theorem cells_getD (s : Store) (a : Nat) : (cells s).getD a 0 = gvalue s a := by
+  unfold cells
+  rw [List.getD_eq_getElem?_getD, List.getElem?_map]
+  by_cases ha : a < s.globals.length
+  · rw [List.getElem?_range ha]; rfl
+  · have h1 : s.globals[a]? = none := List.getElem?_eq_none (by omega)
+    have h2 : (List.range s.globals.length)[a]? = none := List.getElem?_eq_none (by simp; omega)
+    rw [h2]
+    simp [gvalue, h1]
+
+theorem cells_getElem_getD (s : Store) (a : Nat) : (cells s)[a]?.getD 0 = gvalue s a := by
+  rw [← List.getD_eq_getElem?_getD]; exact cells_getD s a
+
+theorem cells_gset (s : Store) (hwf : LiveWF s) (a v : Nat) : cells (gset s a v) = (cells s).set a v := by
+  by_cases ha : a < s.globals.length
+  · apply List.ext_getElem
+    · simp [cells, gset_len]
+    · intro n h1 h2
+      simp only [cells, gset_len, List.getElem_map, List.getElem_range, List.getElem_set]
+      rw [gvalue_gset s hwf a v n ha]
+      by_cases hna : n = a
+      · simp [hna]
+      · have : ¬ a = n := fun h => hna h.symm
+        simp [hna, this]
+  · have h1 : s.globals[a]? = none := List.getElem?_eq_none (by omega)
+    have : gset s a v = s := by unfold gset; rw [h1]
+    rw [this, List.set_eq_of_length_le]
+    simp [cells]; omega
+
+/-- **global_sharing_refines_cell** — for EVERY interleaving of reads and writes through any instance that
+holds the global (defining or importing, any depth of re-export) and through the host API, on both
+storage schemes, the observable outputs equal those of a store with exactly one cell per global:
+every read returns the last write. (Induction over the operation list; no bound on its length.) -/
+theorem global_sharing_refines_cell (s : Store) (hwf : LiveWF s) (ops : List GOp) :
+    grun s ops = crun (instGaddr s) (cells s) ops := by
+  induction ops generalizing s with
+  | nil => rfl
+  | cons op rest ih =>
+    unfold grun crun
+    have hstep : (gstep s op).2 = (cstep (instGaddr s) (cells s) op).2 ∧
+        cells (gstep s op).1 = (cstep (instGaddr s) (cells s) op).1 ∧
+        LiveWF (gstep s op).1 ∧ instGaddr (gstep s op).1 = instGaddr s := by
+      cases op with
+      | guestGet i k =>
+        refine ⟨?_, rfl, hwf, rfl⟩
+        simp only [gstep, cstep]
+        cases instGaddr s i k <;> simp [cells_getElem_getD]
+      | guestSet i k v =>
+        simp only [gstep, cstep]
+        cases h : instGaddr s i k with
+        | none => exact ⟨rfl, rfl, hwf, rfl⟩
+        | some a =>
+          refine ⟨rfl, cells_gset s hwf a v, gset_wf s hwf a v, ?_⟩
+          funext i' k'; simp [instGaddr, gset_insts]
+      | apiGet a =>
+        exact ⟨by simp [gstep, cstep, cells_getElem_getD], rfl, hwf, rfl⟩
+      | apiSet a v =>
+        refine ⟨rfl, cells_gset s hwf a v, gset_wf s hwf a v, ?_⟩
+        funext i' k'; simp [gstep, instGaddr, gset_insts]
+    obtain ⟨h1, h2, h3, h4⟩ := hstep
+    rw [h1, ih _ h3, h2, h4]
+
+/-- sample (test): a compiler-scheme store with one mutable global shared by two instances -/
+def sampleShared : Store :=
+  { compiler := true, globals := [{ ty := { vt := .i32, mutable := true }, val := 1, me := true }], live := [1],
+    insts := [{ name := "A", faddrs := [], taddrs := [], maddr := none, gaddrs := [0], exports := [] },
+              { name := "B", faddrs := [], taddrs := [], maddr := none, gaddrs := [0], exports := [] }] }
+
+example : LiveWF sampleShared := rfl
+example : grun sampleShared [.guestSet 0 0 5, .guestGet 1 0, .apiGet 0, .apiSet 0 7, .guestGet 0 0]
+    = [none, some 5, some 5, none, some 7] := by decide
+
+/-! ## 3. Values captured at instantiation -/
+
+/-- immutable globals keep their initial value: `.Val` and the live value coincide for them -/
+def ImmStable (s : Store) : Prop :=
+  ∀ a g, s.globals[a]? = some g → g.ty.mutable = false → gvalue s a = g.val
+
+/-- `Validated`: every `global.get` of the expression refers to an IMMUTABLE global (what the
+specification requires and what the repaired validator, `constMutOK = false`, enforces) -/
+def Validated (s : Store) (gaddrs : List Nat) (e : ConstExpr) : Prop :=
+  ∀ k, e = .globalGet k → ∃ g, s.globals[gaddrs.getD k 0]? = some g ∧ g.ty.mutable = false
+
+/-- **init_captures_current_value** — under `Validated`, the value an initialiser / segment offset captures
+at instantiation (`evalConst`, which reads the field `.Val`) equals the CURRENT value of the referenced
+global (`evalConstLive`, which reads through `Value()`), on both storage schemes. -/
+theorem init_captures_current_value (s : Store) (hinv : ImmStable s) (gaddrs faddrs : List Nat)
+    (e : ConstExpr) (hv : Validated s gaddrs e) :
+    evalConst s gaddrs faddrs e = evalConstLive s gaddrs faddrs e := by
+  cases e with
+  | globalGet k =>
+    obtain ⟨g, hg, hm⟩ := hv k rfl
+    simp only [evalConst, evalConstLive, gfield, hg]
+    exact (hinv _ g hg hm).symm
+  | _ => rfl
+
+/-- the repaired validator establishes `Validated` for resolved imports -/
+theorem validated_of_constOK (s : Store) (imps : List GT) (gaddrs : List Nat) (e : ConstExpr)
+    (hok : constOK false imps e = true)
+    (hres : ∀ k gt, imps[k]? = some gt → ∃ g, s.globals[gaddrs.getD k 0]? = some g ∧ g.ty = gt) :
+    Validated s gaddrs e := by
+  intro k hk
+  subst hk
+  unfold constOK at hok
+  cases hi : imps[k]? with
+  | none => simp [hi] at hok
+  | some gt =>
+    simp [hi] at hok
+    obtain ⟨g, hg, hty⟩ := hres k gt hi
+    exact ⟨g, hg, by rw [hty]; exact hok⟩
+
+/-- on the interpreter scheme the captured value is current even WITHOUT `Validated` -/
+theorem init_captures_interpreter (s : Store) (hme : ∀ (a : Nat) (g : GlobalInst), s.globals[a]? = some g → g.me = false)
+    (gaddrs faddrs : List Nat) (e : ConstExpr) :
+    evalConst s gaddrs faddrs e = evalConstLive s gaddrs faddrs e := by
+  cases e with
+  | globalGet k =>
+    simp only [evalConst, evalConstLive, gfield, gvalue]
+    cases hg : s.globals[gaddrs.getD k 0]? with
+    | none => rfl
+    | some g => simp [hme _ g hg]
+  | _ => rfl
+
+/-- **stale_global_witness (F2)** — without `Validated`, on the compiler scheme: A's mutable global g = 1,
+`set(5)`, then `(global i32 (global.get $g))` captures 1 while the current value is 5. -/
+theorem stale_global_witness :
+    let s := gset sampleShared 0 5
+    evalConst s [0] [] (.globalGet 0) = 1 ∧ evalConstLive s [0] [] (.globalGet 0) = 5 ∧
+    constOK true [{ vt := .i32, mutable := true }] (.globalGet 0) = true ∧
+    constOK false [{ vt := .i32, mutable := true }] (.globalGet 0) = false := by decide
+
+/-- `ImmStable` is an invariant of well-typed writes (a `global.set`/`Set` only targets mutable globals) -/
+theorem immStable_gset (s : Store) (hwf : LiveWF s) (hinv : ImmStable s) (a v : Nat) (g : GlobalInst)
+    (hg : s.globals[a]? = some g) (hmut : g.ty.mutable = true) : ImmStable (gset s a v) := by
+  have ha : a < s.globals.length := by
+    rcases Nat.lt_or_ge a s.globals.length with h | h
+    · exact h
+    · rw [List.getElem?_eq_none h] at hg; contradiction
+  intro b gb hb hm
+  rw [gvalue_gset s hwf a v b ha]
+  by_cases hba : b = a
+  · subst hba
+    -- the global at `a` stays mutable
+    exfalso
+    unfold gset at hb
+    rw [hg] at hb
+    by_cases hme : g.me = true
+    · simp only [hme, if_true] at hb
+      rw [hg] at hb; cases hb; rw [hmut] at hm; contradiction
+    · have hme' : g.me = false := by simpa using hme
+      simp only [hme', Bool.false_eq_true, if_false] at hb
+      rw [List.getElem?_set] at hb
+      simp [ha] at hb
+      subst hb; simp at hm; rw [hmut] at hm; contradiction
+  · simp only [hba, if_false]
+    have : s.globals[b]? = some gb := by
+      unfold gset at hb
+      rw [hg] at hb
+      by_cases hme : g.me = true
+      · simp only [hme, if_true] at hb; exact hb
+      · have hme' : g.me = false := by simpa using hme
+        simp only [hme', Bool.false_eq_true, if_false] at hb
+        rw [List.getElem?_set] at hb
+        have : ¬ a = b := fun h => hba h.symm
+        simpa [this] using hb
+    exact hinv b gb this hm
+
+example : ImmStable sampleShared := by
+  intro a g h hm
+  match a with
+  | 0 => simp [sampleShared] at h; subst h; simp at hm
+  | n + 1 => simp [sampleShared] at h
+
+/-! ## 4. A failed instantiation leaves the earlier instances usable and consistent -/
+
+theorem writeBytes_shape (bs : List Nat) : ∀ (m : MemInst) (off : Nat),
+    (writeBytes m off bs).pages = m.pages ∧ (writeBytes m off bs).max = m.max := by
+  induction bs with
+  | nil => intro m off; exact ⟨rfl, rfl⟩
+  | cons b rest ih => intro m off; unfold writeBytes; exact ih (m.write off b) (off + 1)
+
+/-- a segment's copy changes only the addresses `off ≤ addr < off + len` -/
+theorem writeBytes_read_outside (bs : List Nat) : ∀ (m : MemInst) (off addr : Nat),
+    (addr < off ∨ off + bs.length ≤ addr) → (writeBytes m off bs).read addr = m.read addr := by
+  induction bs with
+  | nil => intro m off addr _; rfl
+  | cons b rest ih =>
+    intro m off addr h
+    unfold writeBytes
+    rw [ih (m.write off b) (off + 1) addr (by simp only [List.length_cons] at h; omega)]
+    unfold MemInst.read MemInst.write
+    have hne : ¬ off = addr := by simp only [List.length_cons] at h; omega
+    have hb : (off == addr) = false := by simp [hne]
+    simp [List.find?, hb]
+
+/-- the shape of a memory cell: current size and maximum -/
+def SameMemShape (s r : Store) : Prop :=
+  ∀ (ma : Nat) (m : MemInst), s.mems[ma]? = some m → ∃ m', r.mems[ma]? = some m' ∧ m'.pages = m.pages ∧ m'.max = m.max
+
+/-- the shape of a table cell: current size, limits, element type -/
+def SameTableShape (s r : Store) : Prop :=
+  ∀ (ta : Nat) (t : TableInst), s.tables[ta]? = some t →
+    ∃ t', r.tables[ta]? = some t' ∧ t'.refs.length = t.refs.length ∧ t'.min = t.min ∧ t'.max = t.max ∧ t'.rt = t.rt
+
+theorem applyDatas_frame (maddr : Option Nat) (gaddrs faddrs : List Nat) : ∀ (ds : List Data) (s : Store),
+    (applyDatas s maddr gaddrs faddrs ds).1.insts = s.insts ∧
+    (applyDatas s maddr gaddrs faddrs ds).1.globals = s.globals ∧
+    (applyDatas s maddr gaddrs faddrs ds).1.live = s.live ∧
+    (applyDatas s maddr gaddrs faddrs ds).1.tables = s.tables ∧
+    SameMemShape s (applyDatas s maddr gaddrs faddrs ds).1 := by
+  intro ds
+  induction ds with
+  | nil => intro s; exact ⟨rfl, rfl, rfl, rfl, fun ma m h => ⟨m, h, rfl, rfl⟩⟩
+  | cons d rest ih =>
+    intro s
+    have triv : SameMemShape s s := fun ma m h => ⟨m, h, rfl, rfl⟩
+    unfold applyDatas
+    split
+    · exact ⟨rfl, rfl, rfl, rfl, triv⟩
+    · rename_i ma
+      split
+      · exact ⟨rfl, rfl, rfl, rfl, triv⟩
+      · rename_i m hm
+        split
+        · exact ⟨rfl, rfl, rfl, rfl, triv⟩
+        · rename_i m' hm'
+          obtain ⟨h1, h2, h3, h4, h5⟩ := ih { s with mems := s.mems.set ma m' }
+          refine ⟨h1, h2, h3, h4, ?_⟩
+          intro a x hx
+          -- shape of m' = shape of m
+          have hshape : m'.pages = m.pages ∧ m'.max = m.max := by
+            unfold applyData1 at hm'
+            dsimp only at hm'
+            split at hm'
+            · contradiction
+            · cases hm'; exact writeBytes_shape _ _ _
+          by_cases hax : a = ma
+          · subst hax
+            have hlt : a < s.mems.length := by
+              rcases Nat.lt_or_ge a s.mems.length with h | h
+              · exact h
+              · rw [List.getElem?_eq_none h] at hm; contradiction
+            have : ({ s with mems := s.mems.set a m' } : Store).mems[a]? = some m' := by
+              simp [List.getElem?_set, hlt]
+            obtain ⟨y, hy, hp, hmx⟩ := h5 a m' this
+            rw [hm] at hx; cases hx
+            exact ⟨y, hy, by rw [hp, hshape.1], by rw [hmx, hshape.2]⟩
+          · have : ({ s with mems := s.mems.set ma m' } : Store).mems[a]? = some x := by
+              have hne : ¬ ma = a := fun h => hax h.symm
+              simp [List.getElem?_set, hne, hx]
+            exact h5 a x this
+
+theorem writeRefs_length (items : List (Option Nat)) : ∀ (refs : List Nat) (off : Nat) (faddrs : List Nat),
+    (writeRefs refs off faddrs items).length = refs.length := by
+  induction items with
+  | nil => intro refs off faddrs; rfl
+  | cons it rest ih =>
+    intro refs off faddrs
+    cases it with
+    | none => unfold writeRefs; exact ih refs (off + 1) faddrs
+    | some f => unfold writeRefs; rw [ih]; simp
+
+theorem applyElems_frame (taddrs gaddrs faddrs : List Nat) : ∀ (es : List Elem) (s : Store),
+    (applyElems s taddrs gaddrs faddrs es).insts = s.insts ∧
+    (applyElems s taddrs gaddrs faddrs es).globals = s.globals ∧
+    (applyElems s taddrs gaddrs faddrs es).live = s.live ∧
+    (applyElems s taddrs gaddrs faddrs es).mems = s.mems ∧
+    SameTableShape s (applyElems s taddrs gaddrs faddrs es) := by
+  intro es
+  induction es with
+  | nil => intro s; exact ⟨rfl, rfl, rfl, rfl, fun ta t h => ⟨t, h, rfl, rfl, rfl, rfl⟩⟩
+  | cons e rest ih =>
+    intro s
+    have triv : SameTableShape s s := fun ta t h => ⟨t, h, rfl, rfl, rfl, rfl⟩
+    unfold applyElems
+    split
+    · exact ih s
+    · split
+      · exact ⟨rfl, rfl, rfl, rfl, triv⟩
+      · rename_i ta hta
+        split
+        · exact ⟨rfl, rfl, rfl, rfl, triv⟩
+        · rename_i t ht
+          dsimp only
+          split
+          · exact ⟨rfl, rfl, rfl, rfl, triv⟩
+          · obtain ⟨h1, h2, h3, h4, h5⟩ := ih ({ s with tables := s.tables.set ta ({ t with refs := writeRefs t.refs (evalConst s gaddrs faddrs e.off % 4294967296) faddrs e.items } : TableInst) } : Store)
+            refine ⟨h1, h2, h3, h4, ?_⟩
+            intro a x hx
+            by_cases hax : a = ta
+            · subst hax
+              have hlt : a < s.tables.length := by
+                rcases Nat.lt_or_ge a s.tables.length with h | h
+                · exact h
+                · rw [List.getElem?_eq_none h] at ht; contradiction
+              rw [ht] at hx; cases hx
+              obtain ⟨y, hy, hl, hmn, hmx, hrt⟩ := h5 a _ (by simp [List.getElem?_set, hlt]; rfl)
+              exact ⟨y, hy, by rw [hl]; exact writeRefs_length _ _ _ _, hmn, hmx, hrt⟩
+            · have hne : ¬ ta = a := fun h => hax h.symm
+              exact h5 a x (by simp [List.getElem?_set, hne, hx])
+
+theorem getElem_append_some {α} (l r : List α) (i : Nat) (x : α) (h : l[i]? = some x) : (l ++ r)[i]? = some x := by
+  have hlt : i < l.length := by
+    rcases Nat.lt_or_ge i l.length with h' | h'
+    · exact h'
+    · rw [List.getElem?_eq_none h'] at h; contradiction
+  rw [List.getElem?_append_left hlt]; exact h
+
+/-- allocation only appends: every earlier cell is where it was, with the value it had -/
+theorem alloc_frame (s : Store) (name : String) (d : ModDesc) (ext : List Extern) (hwf : LiveWF s) :
+    (alloc s name d ext).store.insts = s.insts ∧
+    SameMemShape s (alloc s name d ext).store ∧ SameTableShape s (alloc s name d ext).store ∧
+    (∀ (ma : Nat) (m : MemInst), s.mems[ma]? = some m → (alloc s name d ext).store.mems[ma]? = some m) ∧
+    (∀ (ta : Nat) (t : TableInst), s.tables[ta]? = some t → (alloc s name d ext).store.tables[ta]? = some t) ∧
+    (∀ a, a < s.globals.length → gvalue (alloc s name d ext).store a = gvalue s a) := by
+  unfold alloc
+  dsimp only
+  refine ⟨rfl, ?_, ?_, ?_, ?_, ?_⟩
+  · intro ma m h; exact ⟨m, getElem_append_some _ _ _ _ h, rfl, rfl⟩
+  · intro ta t h; exact ⟨t, getElem_append_some _ _ _ _ h, rfl, rfl, rfl, rfl⟩
+  · intro ma m h; exact getElem_append_some _ _ _ _ h
+  · intro ta t h; exact getElem_append_some _ _ _ _ h
+  · intro a ha
+    unfold gvalue
+    dsimp only
+    rw [List.getElem?_append_left ha]
+    cases hg : s.globals[a]? with
+    | none => rfl
+    | some g =>
+      dsimp only
+      have hl : a < s.live.length := by unfold LiveWF at hwf; omega
+      rw [List.getD_eq_getElem?_getD, List.getD_eq_getElem?_getD, List.getElem?_append_left hl]
+
+theorem sameMemShape_trans {a b c : Store} (h1 : SameMemShape a b) (h2 : SameMemShape b c) : SameMemShape a c := by
+  intro ma m h
+  obtain ⟨m', hm', hp, hx⟩ := h1 ma m h
+  obtain ⟨m'', hm'', hp', hx'⟩ := h2 ma m' hm'
+  exact ⟨m'', hm'', by rw [hp', hp], by rw [hx', hx]⟩
+
+theorem sameTableShape_trans {a b c : Store} (h1 : SameTableShape a b) (h2 : SameTableShape b c) : SameTableShape a c := by
+  intro ta t h
+  obtain ⟨t', ht', a1, a2, a3, a4⟩ := h1 ta t h
+  obtain ⟨t'', ht'', b1, b2, b3, b4⟩ := h2 ta t' ht'
+  exact ⟨t'', ht'', by rw [b1, a1], by rw [b2, a2], by rw [b3, a3], by rw [b4, a4]⟩
+
+theorem gset_shapes (s : Store) (a v : Nat) : (gset s a v).mems = s.mems ∧ (gset s a v).tables = s.tables := by
+  unfold gset; split
+  · split <;> exact ⟨rfl, rfl⟩
+  · exact ⟨rfl, rfl⟩
+
+theorem runStart_frame (s : Store) (gaddrs : List Nat) (st : Start) :
+    (runStart s gaddrs st).1.insts = s.insts ∧ (runStart s gaddrs st).1.mems = s.mems ∧
+    (runStart s gaddrs st).1.tables = s.tables := by
+  cases st with
+  | none => exact ⟨rfl, rfl, rfl⟩
+  | trap => exact ⟨rfl, rfl, rfl⟩
+  | set k v => exact ⟨gset_insts _ _ _, (gset_shapes _ _ _).1, (gset_shapes _ _ _).2⟩
+  | setTrap k v => exact ⟨gset_insts _ _ _, (gset_shapes _ _ _).1, (gset_shapes _ _ _).2⟩
+
+/-- **failed_instantiation_preserves** — whatever way an instantiation fails (for every store, every module
+descriptor):
+ * no instance is registered and the earlier instances (their address tables) are untouched;
+ * rejected at validation or import resolution ⇒ the store is unchanged altogether (no segment of the
+   module has been applied);
+ * otherwise every earlier memory keeps its size and maximum and every earlier table its size, limits
+   and element type (contents change only through `applyDatas`/`applyElems`, i.e. by the segments already
+   applied — byte-level frame: `writeBytes_read_outside`);
+ * a data-segment failure changes no global of an earlier instance and no table at all. -/
+theorem failed_instantiation_preserves (s : Store) (hwf : LiveWF s) (name : String) (d : ModDesc) :
+    let r := instantiate s name d
+    r.2 ≠ .ok →
+      r.1.insts = s.insts ∧
+      ((r.2 = .invalid ∨ r.2 = .importErr) → r.1 = s) ∧
+      SameMemShape s r.1 ∧ SameTableShape s r.1 ∧
+      (r.2 = .dataErr → (∀ a, a < s.globals.length → gvalue r.1 a = gvalue s a) ∧
+        (∀ (ta : Nat) (t : TableInst), s.tables[ta]? = some t → r.1.tables[ta]? = some t)) := by
+  intro r hne
+  have trivM : SameMemShape s s := fun ma m h => ⟨m, h, rfl, rfl⟩
+  have trivT : SameTableShape s s := fun ta t h => ⟨t, h, rfl, rfl, rfl, rfl⟩
+  have hr : r = instantiate s name d := rfl
+  unfold instantiate at hr
+  split at hr
+  · rw [hr]; exact ⟨rfl, fun _ => rfl, trivM, trivT, fun h => by cases h⟩
+  · split at hr
+    · rw [hr]; exact ⟨rfl, fun _ => rfl, trivM, trivT, fun h => by cases h⟩
+    · rename_i ext hext
+      obtain ⟨a1, a2, a3, a4, a5, a6⟩ := alloc_frame s name d ext hwf
+      dsimp only at hr
+      obtain ⟨b1, b2, b3, b4, b5⟩ := applyDatas_frame (alloc s name d ext).inst.maddr (alloc s name d ext).inst.gaddrs
+        (alloc s name d ext).inst.faddrs d.datas (alloc s name d ext).store
+      split at hr
+      · -- data error
+        rename_i s2 hs2
+        have e2 : s2 = (applyDatas (alloc s name d ext).store (alloc s name d ext).inst.maddr (alloc s name d ext).inst.gaddrs
+            (alloc s name d ext).inst.faddrs d.datas).1 := by rw [hs2]
+        rw [hr]
+        dsimp only
+        subst e2
+        refine ⟨by rw [b1, a1], ?_, sameMemShape_trans a2 b5, ?_, ?_⟩
+        · intro h; rcases h with h | h <;> cases h
+        · intro ta t h; rw [b4]; exact a3 ta t h
+        · intro _
+          refine ⟨?_, ?_⟩
+          · intro a ha
+            have : gvalue (applyDatas (alloc s name d ext).store (alloc s name d ext).inst.maddr (alloc s name d ext).inst.gaddrs
+                (alloc s name d ext).inst.faddrs d.datas).1 a = gvalue (alloc s name d ext).store a := by
+              unfold gvalue; rw [b2, b3]
+            rw [this]; exact a6 a ha
+          · intro ta t h; rw [b4]; exact a5 ta t h
+      · rename_i s2 hs2
+        have e2 : s2 = (applyDatas (alloc s name d ext).store (alloc s name d ext).inst.maddr (alloc s name d ext).inst.gaddrs
+            (alloc s name d ext).inst.faddrs d.datas).1 := by rw [hs2]
+        subst e2
+        obtain ⟨c1, c2, c3, c4, c5⟩ := applyElems_frame (alloc s name d ext).inst.taddrs (alloc s name d ext).inst.gaddrs
+          (alloc s name d ext).inst.faddrs d.elems (applyDatas (alloc s name d ext).store (alloc s name d ext).inst.maddr
+            (alloc s name d ext).inst.gaddrs (alloc s name d ext).inst.faddrs d.datas).1
+        obtain ⟨d1, d2, d3⟩ := runStart_frame (applyElems (applyDatas (alloc s name d ext).store (alloc s name d ext).inst.maddr
+            (alloc s name d ext).inst.gaddrs (alloc s name d ext).inst.faddrs d.datas).1 (alloc s name d ext).inst.taddrs
+            (alloc s name d ext).inst.gaddrs (alloc s name d ext).inst.faddrs d.elems) (alloc s name d ext).inst.gaddrs d.start
+        split at hr
+        · -- start error
+          rename_i s4 hs4
+          have e4 : s4 = (runStart (applyElems (applyDatas (alloc s name d ext).store (alloc s name d ext).inst.maddr
+            (alloc s name d ext).inst.gaddrs (alloc s name d ext).inst.faddrs d.datas).1 (alloc s name d ext).inst.taddrs
+            (alloc s name d ext).inst.gaddrs (alloc s name d ext).inst.faddrs d.elems) (alloc s name d ext).inst.gaddrs d.start).1 := by
+            rw [hs4]
+          rw [hr]
+          dsimp only
+          subst e4
+          refine ⟨by rw [d1, c1, b1, a1], ?_, ?_, ?_, ?_⟩
+          · intro h; rcases h with h | h <;> cases h
+          rotate_right
+          · intro h; cases h
+          · intro ma m h
+            obtain ⟨m', hm', hp, hx⟩ := sameMemShape_trans a2 b5 ma m h
+            exact ⟨m', by rw [d2, c4]; exact hm', hp, hx⟩
+          · intro ta t h
+            have h' := a3 ta t h
+            obtain ⟨t1, ht1, x1, x2, x3, x4⟩ := h'
+            rw [← b4] at ht1
+            obtain ⟨t2, ht2, y1, y2, y3, y4⟩ := c5 ta t1 ht1
+            exact ⟨t2, by rw [d3]; exact ht2, by rw [y1, x1], by rw [y2, x2], by rw [y3, x3], by rw [y4, x4]⟩
+        · -- ok: excluded
+          rw [hr] at hne
+          exact absurd rfl hne
+
+/-- sample (test): a failing instantiation (out-of-bounds second data segment) against a concrete store —
+the first segment's byte is there, sizes are unchanged, no instance was added -/
+def sampleA : Store :=
+  (instantiate {} "A" { mem := some { min := 1, max := 2 }, exports := [{ name := "mem", kind := .mem, idx := 0 }] }).1
+
+def sampleBad : ModDesc :=
+  { imports := [{ mod := "A", name := "mem", desc := .mem { min := 1, max := 65536 } }],
+    datas := [{ off := .const 10, bytes := [7] }, { off := .const 65535, bytes := [1, 2] }] }
+
+example : (instantiate sampleA "B" sampleBad).2 = .dataErr ∧
+    (instantiate sampleA "B" sampleBad).1.insts.length = 1 ∧
+    ((instantiate sampleA "B" sampleBad).1.mems.map (fun m => (m.pages, m.read 10, m.read 65535))) = [(1, 7, 0)] := by decide
+
 end Wz.C04
